@@ -696,3 +696,58 @@ func elemTypeName(v ssa.Value) string {
 	}
 	return ""
 }
+
+// ---------------------------------------------------------------------------
+// C04.R8: a conversion that is the identity never hands the caller's memory to `&`
+
+// TargetPointer.Build takes the address of whatever the inner conversion returned when that is a variable
+// (JenID.Pointer).  A builder whose Build can return its own sourceID parameter unchanged therefore makes the target
+// pointer alias the source — unless the value carries no memory or another rule takes T → *T first.
+var identityResultAudit = map[string]string{
+	"builder.(*Basic).Build":  "basic T → *T is taken by BasicTargetPointerRule, which precedes TargetPointer and copies into a fresh local (C04.R6/R7)",
+	"builder.(*Struct).Build": "only for two unnamed structs without fields: there is no memory to share",
+}
+
+func identityAddressableRule(p *Prog, r *Report, id string) {
+	r.Rule(id, "T → *T never aliases the source: every builder whose Build can return its own sourceID unchanged (an identity conversion, which TargetPointer.Build then takes the address of) is audited as harmless — Basic (BasicTargetPointerRule comes first) and the field-less unnamed struct shortcut; SkipCopy.Build is not: under skipCopySameType an unnamed struct S → *S becomes `&source.Items[i]` (D23, recorded)", 2)
+	n := 0
+	for _, fi := range p.Funcs {
+		if fi.Lit != nil || relPkg(fi.Pkg.PkgPath) != "builder" || fi.Obj.Name() != "Build" {
+			continue
+		}
+		sf := p.SSAFunc(fi)
+		if sf == nil {
+			continue
+		}
+		var src *ssa.Parameter
+		for _, prm := range sf.Params {
+			if pt, ok := prm.Type().(*types.Pointer); ok && isNamed(pt.Elem(), modPath+"/xtype", "JenID") {
+				src = prm
+			}
+		}
+		if src == nil {
+			continue
+		}
+		identity := false
+		var at token.Pos
+		allInstrs(sf, false, func(in ssa.Instruction) {
+			if ret, ok := in.(*ssa.Return); ok && len(ret.Results) == 3 && ret.Results[1] == ssa.Value(src) {
+				identity = true
+				at = ret.Pos()
+			}
+		})
+		if !identity {
+			continue
+		}
+		n++
+		site := fi.Name() + "/identity result addressable"
+		if why, ok := identityResultAudit[fi.Name()]; ok {
+			r.OK(site, p.PosStr(at), "audited: "+why)
+		} else {
+			r.Bad(site, p.PosStr(at), "Build can return the caller's source expression unchanged as an addressable variable: for T → *T, TargetPointer.Build emits `&<source expression>`, so the target pointer aliases the source (a slice element, a field reached through a pointer) although T and *T are not identical types")
+		}
+	}
+	if n < 2 {
+		r.Bad("builder/identity results", "", fmt.Sprintf("only %d identity-returning builders found", n))
+	}
+}
